@@ -27,6 +27,9 @@ inductive Spec where
   | timeout (inner : Inner) (limit : Nat)
   | interval (start period n work : Nat)
   | noise                  -- a task woken repeatedly from another thread; it owns no timer
+  /-- interval whose `tick()` futures are, per character of the pattern, `d` awaited to completion,
+  `p` polled once and dropped, `t` wrapped in a 2 ms `timeout` -/
+  | intervalCancel (start period : Nat) (pattern : List Char)
 deriving Repr
 
 /-- where an interval task stands -/
@@ -35,8 +38,17 @@ inductive Phase where
   | work                   -- awaiting the sleep between two ticks
 deriving Repr
 
+/-- a suspended `tick()` future of an `intervalCancel` task: the coroutine position, its sleep, and
+the sleep of the surrounding `timeout` if there is one -/
+structure TickWait where
+  fut : TickFut
+  slp : Sleep
+  limit : Option Sleep
+deriving Repr
+
 inductive Task where
   | init (s : Spec)
+  | inCancel (iv : Interval) (pat : List Char) (count : Nat) (cur : Option TickWait)
   | sleeping (slp : Sleep)
   | inTimeout (innerNever : Bool) (inner : Option Sleep) (slp : Sleep)
   | inInterval (iv : Interval) (slp : Sleep) (ph : Phase) (ticks : List Nat) (left work : Nat)
@@ -58,6 +70,52 @@ the task can make further progress right now (`false` = it returned `Poll::Pendi
 def trans (w : Wheel) (now id : Nat) : Task → Wheel × Task × Bool
   | .done t => (w, .done t, false)
   | .init .noise => (w, .done "noise", false)
+  | .init (.intervalCancel start period pat) =>
+    match intervalAt start period with
+    | none => (w, .done "panic", false)
+    | some iv => (w, .inCancel iv pat 0 none, true)
+  | .inCancel iv pat count none =>
+    match pat with
+    | [] => (w, .done s!"ticks#{count}", false)
+    | c :: rest =>
+      -- `timeout(2 ms, iv.tick())` creates its own sleep first; the tick future starts at the first poll
+      let (w0, limit) : Wheel × Option (Option Sleep) :=
+        if c = 't' then
+          match Sleep.new w now (now + 2) with
+          | (w', some sl) => (w', some (some sl))
+          | (w', none) => (w', none)
+        else (w, some none)
+      match limit with
+      | none => (w0, .done "panic", false)
+      | some limit =>
+        match iv.tickBegin now with
+        | none => (w0, .done "panic", false)
+        | some (iv1, fut, d) =>
+          match Sleep.new w0 now d with
+          | (w1, none) => (w1, .done "panic", false)
+          | (w1, some s) =>
+            if c = 'p' then
+              -- polled once, then dropped: delivered if already due, cancelled otherwise
+              match Sleep.poll w1 s id with
+              | (w2, true) => (Sleep.drop w2 s, .inCancel (iv1.tickEnd fut).1 rest count none, true)
+              | (w2, false) => (Sleep.drop w2 s, .inCancel iv1 rest count none, true)
+            else (w1, .inCancel iv1 (c :: rest) count (some ⟨fut, s, limit⟩), true)
+  | .inCancel iv pat count (some cur) =>
+    match cur.limit with
+    | none =>
+      -- plain `tick().await`
+      match Sleep.poll w cur.slp id with
+      | (w', false) => (w', .inCancel iv pat count (some cur), false)
+      | (w', true) => (Sleep.drop w' cur.slp, .inCancel (iv.tickEnd cur.fut).1 (pat.drop 1) (count + 1) none, true)
+    | some sl =>
+      let (w1, innerReady) := Sleep.poll w cur.slp id
+      match Timeout.poll w1 sl innerReady id with
+      | (w2, .pending) => (w2, .inCancel iv pat count (some cur), false)
+      | (w2, .ok) =>
+        (Sleep.drop (Sleep.drop w2 cur.slp) sl, .inCancel (iv.tickEnd cur.fut).1 (pat.drop 1) count none, true)
+      | (w2, .elapsed) =>
+        -- the suspended tick future is dropped: the interval keeps the state `tickBegin` left
+        (Sleep.drop (Sleep.drop w2 cur.slp) sl, .inCancel iv (pat.drop 1) count none, true)
   | .init (.sleep d) =>
     match Sleep.new w now d with
     | (w', some s) => (w', .sleeping s, true)
@@ -200,6 +258,10 @@ def parseSpec (s : String) : Option Spec :=
     | some a, some l => some (.timeout (.sleep a) l)
     | _, _ => none
   | ["n", _count, _every] => some .noise
+  | ["ic", st, p, pat] =>
+    match parseOff st, p.toNat? with
+    | some st, some p => some (.intervalCancel st p pat.toList)
+    | _, _ => none
   | ["i", st, p, n, wk] =>
     match parseOff st, p.toNat?, n.toNat?, wk.toNat? with
     | some st, some p, some n, some wk => some (.interval st p n wk)
